@@ -110,6 +110,26 @@ def run(ctx):
                                     ints.extend(int(i) for i in payload(k)[1])
                             if x == t2 and 60 in ints and 604800 in ints:
                                 ok = True
+                    # the same range test spelled as two comparisons (`match x { 60..=604800 => .. }`, `x >= 60 && x <= 604800`)
+                    lo = hi = False
+                    for (at, o) in alt:
+                        if tag(at) != "op" or payload(at)[0] not in ("lt", "le", "gt", "ge") or len(kids(at)) != 2 or o not in (True, False):
+                            continue
+                        l, r = (ix.inline(k) for k in kids(at))
+                        nm = payload(at)[0]
+                        if not o:
+                            nm = {"lt": "ge", "le": "gt", "gt": "le", "ge": "lt"}[nm]
+                        if r == t2 and tag(l) == "int":      # c <op> x  ->  x <flipped op> c
+                            l, r = r, l
+                            nm = {"lt": "gt", "le": "ge", "gt": "lt", "ge": "le"}[nm]
+                        if l == t2 and tag(r) == "int":
+                            c = int(payload(r)[0])
+                            if (nm == "ge" and c == 60) or (nm == "gt" and c == 59):
+                                lo = True
+                            if (nm == "le" and c == 604800) or (nm == "lt" and c == 604801):
+                                hi = True
+                    if lo and hi:
+                        ok = True
                     if not ok:
                         twap_bad = twap_bad or q
         for f in fields:
